@@ -113,3 +113,24 @@ C[LF + "linear_transform_points"] = dict(
     mode="R", owner="C16", params={"points": PTS, "coef": COEF}, returns=V,
     requires=[], ensures=["len(result) == len(points)", "forall(0, len(points), lambda k: result[k] == points[k][0] * coef[1] + coef[0])"],
 )
+
+# end-point interpolation (what the global cost of C15 compares the curve with): for vertical=False the fitted values lie on the line
+# through the first and the last point
+_LINE = ("forall(0, len(x), lambda k: (result[k] - y[0]) * (x[len(x)-1] - x[0]) == (y[len(x)-1] - y[0]) * (x[k] - x[0]))")
+C[LF + "linear_fit_transform#def"] = dict(
+    function=LF + "linear_fit_transform", mode="R", owner="C16", params={"x": V, "y": V, "vertical": "Bool"}, returns=V,
+    requires=["len(x) >= 1", "len(y) == len(x)", "vertical == False", "x[0] != x[len(x)-1]"],
+    ensures=["len(result) == len(x)", "result[0] == y[0] and result[len(x)-1] == y[len(x)-1]", _LINE],
+    post_hints=["coef1[1] * x[0] + coef1[0] == y[0] and coef1[1] * x[len(x)-1] + coef1[0] == y[len(x)-1]",
+                "forall(0, len(x), lambda k: y_hat[k] == x[k] * coef1[1] + coef1[0])",
+                "coef1[1] * (x[len(x)-1] - x[0]) == y[len(x)-1] - y[0]",
+                "forall(0, len(x), lambda k: y_hat[k] - y[0] == coef1[1] * (x[k] - x[0]))"],
+)
+_LINEP = _LINE.replace("len(x)", "len(points)").replace("x[k]", "points[k][0]").replace("x[0]", "points[0][0]").replace("y[0]", "points[0][1]") \
+    .replace("x[len(points)-1]", "points[len(points)-1][0]").replace("y[len(points)-1]", "points[len(points)-1][1]")
+C[LF + "linear_fit_transform_points#def"] = dict(
+    function=LF + "linear_fit_transform_points", mode="R", owner="C16", params={"points": PTS, "vertical": "Bool"}, returns=V,
+    use={LF + "linear_fit_transform": LF + "linear_fit_transform#def"},
+    requires=["len(points) >= 1", "vertical == False", "points[0][0] != points[len(points)-1][0]"],
+    ensures=["len(result) == len(points)", "result[0] == points[0][1] and result[len(points)-1] == points[len(points)-1][1]", _LINEP],
+)
